@@ -480,6 +480,70 @@ def remove_enum_value(rng, ir):
 
 
 @edit
+def rename_enum_value_keeping_internal_value(rng, ir):
+    """("RED", 1) -> ("CRIMSON", 1): for clients RED is gone, whatever python value backs the new name."""
+    enums = [t for t in ir.types.values() if t.kind == "enum" and getattr(t, "coded", False)
+             and not uses_in_defaults(ir, t.name)]
+    if not enums:
+        return None
+    e = rng.choice(enums)
+    v = rng.choice(e.values)
+    w = copy.copy(v)
+    w.name = "RENAMED_%s" % v.name
+    e.values = [w if x is v else x for x in e.values]
+    return [v.name, w.name]
+
+
+def _default_and_type_edit(rng, ir, where):
+    """Two elementary edits on one element: its default changes and its type becomes non-null."""
+    sg = S.SchemaGen(rng)
+    sg.s = ir
+    if where == "arg":
+        c = pick_arg(rng, ir, lambda a: a.has_default and a.type[0] != "nonnull")
+        if not c:
+            return None
+        t, f, a = c
+    else:
+        c = pick_input_field(rng, ir, lambda f: f.has_default and f.type[0] != "nonnull")
+        if not c:
+            return None
+        t, a = c
+        if uses_in_defaults(ir, t.name):
+            return None
+    from ..ref import refcoerce
+
+    b = copy.copy(a)
+    b.type = nn(a.type)
+    for _ in range(20):
+        d = sg.input_value_for(b.type, depth=2)
+        try:
+            if d is not None and refcoerce.coerce_literal(ir, a.type, d) != refcoerce.coerce_literal(ir, a.type, a.default):
+                break
+        except RecursionError:
+            return None
+    else:
+        return None
+    b.default = d
+    if where == "arg":
+        g = copy.copy(f)
+        g.args = [b if x is a else x for x in f.args]
+        replace_field(ir, f, g)
+    else:
+        t.input_fields = [b if x is a else x for x in t.input_fields]
+    return [a.name]
+
+
+@edit
+def argument_default_and_type(rng, ir):
+    return _default_and_type_edit(rng, ir, "arg")
+
+
+@edit
+def input_field_default_and_type(rng, ir):
+    return _default_and_type_edit(rng, ir, "input")
+
+
+@edit
 def change_enum_value_deprecation(rng, ir):
     enums = [t for t in ir.types.values() if t.kind == "enum"]
     if not enums:
